@@ -197,6 +197,17 @@ def job_factories(j, seed):
         c3._content.append('y')
         c3._authors.append('z')
         chk('CIF.copy: independent lists', c1._reducers == ['prog'] and c1._content == [] and c1._authors == [])
+        # every public attribute a caller can assign on a derived builder leaves the template and its other descendants alone
+        t = cif.CIF('tmpl', comment='tc')
+        a_ = t.with_reducers('r1')
+        b_ = t.with_reducers('r2')
+        cpy = t.copy()
+        a_.name = 'run_1'
+        a_.comment = 'ca'
+        chk('renaming / re-commenting a derived builder does not rename the template, a sibling or a copy',
+            t.name == 'tmpl' and b_.name == 'tmpl' and cpy.name == 'tmpl' and t.comment == 'tc' and b_.comment == 'tc' and a_.name == 'run_1')
+        cpy.name = 'copy'
+        chk('renaming a copy does not rename the original', t.name == 'tmpl' and a_.name == 'run_1')
         b0 = cif.Block('n', [{'a.x': 1}])
         b1 = b0.copy()
         b1.add({'a.y': 2})
@@ -312,6 +323,26 @@ def replay_real(case):
                 a.clear()
                 if fct() != before:
                     bad.append('graph factory returns shared state')
+        elif which == 'cif':
+            import io as _io
+            from scippneutron.io import cif
+
+            t = cif.CIF('tmpl', comment='tc')
+            a_ = t.with_reducers('r1')
+            b_ = t.with_reducers('r2')
+            cpy = t.copy()
+            a_.name = 'run_1'
+            a_.comment = 'ca'
+            if (t.name, b_.name, cpy.name) != ('tmpl', 'tmpl', 'tmpl') or t.comment != 'tc' or b_.comment != 'tc':
+                bad.append(f'after renaming one derived builder: template {t.name!r}, sibling {b_.name!r}, copy {cpy.name!r}')
+            f = _io.StringIO()
+            b_.save(f)
+            if 'data_tmpl' not in f.getvalue():
+                bad.append('a sibling is saved under the name given to another builder')
+            c3 = a_.copy()
+            c3._reducers.append('x')
+            if a_._reducers != ['r1']:
+                bad.append('copy shares the reducer list')
         elif which == 'models':
             from scippneutron.peaks import model as M
 
